@@ -153,6 +153,24 @@ class Token:
         self.meta = meta
 
 
+def _lark_error(
+    logger: Logger,
+    filename: pathlib.Path,
+    source: str,
+    e: Union[UnexpectedCharacters, UnexpectedEOF],
+) -> Err[FcpError]:
+    line, column = e.line, e.column
+    if isinstance(e, UnexpectedEOF):
+        # lark has no position for the end of input, point to the last line
+        lines = source.split("\n")
+        line, column = len(lines), len(lines[-1]) + 1
+
+    return error(
+        logger.log_lark(filename.name, e),
+        Token(MetaData(line, line, column, column, 0, 0, str(filename))),
+    )
+
+
 def _convert_params(params: Dict[str, Callable]) -> Dict[str, Any]:
     conversion_table = {
         "range": lambda x: {"min_value": float(x[0]), "max_value": float(x[1])},
@@ -422,12 +440,7 @@ class FcpV2Transformer(Transformer):
             self.error_logger.add_source(filename.name, source)
             fcp_ast = fcp_parser.parse(source)
         except (UnexpectedCharacters, UnexpectedEOF) as e:
-            return error(
-                self.error_logger.log_lark(filename.name, e),
-                Token(
-                    MetaData(e.line, e.line, e.column, e.column, 0, 0, str(filename))
-                ),
-            )
+            return _lark_error(self.error_logger, filename, source, e)
 
         fcp = FcpV2Transformer(
             pathlib.Path(filename).resolve(),
@@ -568,11 +581,8 @@ def _get_fcp(
     logger.add_source(filename.name, source)
     try:
         fcp_ast = fcp_parser.parse(source)
-    except UnexpectedCharacters as e:
-        return error(
-            logger.log_lark(filename.name, e),
-            Token(MetaData(e.line, e.line, e.column, e.column, 0, 0, str(filename))),
-        )
+    except (UnexpectedCharacters, UnexpectedEOF) as e:
+        return _lark_error(logger, filename, source, e)
 
     parser_context = ParserContext()
 
